@@ -744,6 +744,26 @@ package ackhandler
 //@ loop HasAckElicitingFrames #0
 //@   modifies nothing
 
+// GetAckFrame of the base tracker ranges over the history's iterator; its loop body is under contract below
+// (GetAckFrame$1: one ACK range per interval, bounds copied, earlier ranges kept), the iterator's visiting order is not.
+//@ func (h *receivedPacketTracker) GetAckFrame
+//@   trusted range-over-func loop: the body is verified as GetAckFrame$1, the composition with the iterator is assumed; only the flag protocol is stated here
+//@   ensures [nil-iff-nothing-new] iff(result == nil, !old(h.hasNewAck))
+//@   ensures [consumed] !h.hasNewAck
+//@   ensures [same-struct] implies(result != nil, result == h.lastAck)
+//@   modifies h.hasNewAck, h.lastAck, heap(wire.AckFrame.AckRanges), heap(wire.AckFrame.DelayTime), heap(wire.AckFrame.ECT0), heap(wire.AckFrame.ECT1), heap(wire.AckFrame.ECNCE), elems(wire.AckRange)
+
+// The application-data tracker decides WHEN an ACK is sent: only if one is queued or the alarm expired (when asked so),
+// with the delay measured from the largest observed packet, and sending it clears the queue, the alarm and the counter.
+//@ func (h *appDataReceivedPacketTracker) GetAckFrame
+//@   props C07
+//@   requires 0 <= now && now <= 4611686018427387903 && 0 <= h.largestObservedRcvdTime && h.largestObservedRcvdTime <= 4611686018427387903 && 0 <= h.ackAlarm && h.ackAlarm <= 4611686018427387903
+//@   ensures [not-before-due] implies(onlyIfQueued && !old(h.ackQueued) && (old(h.ackAlarm) == 0 || old(h.ackAlarm) > now), result == nil && called("(*receivedPacketTracker).GetAckFrame") == 0)
+//@   ensures [nothing-sent-keeps-state] implies(result == nil, h.ackQueued == old(h.ackQueued) && h.ackAlarm == old(h.ackAlarm) && h.ackElicitingPacketsReceivedSinceLastAck == old(h.ackElicitingPacketsReceivedSinceLastAck))
+//@   ensures [sent-resets-state] implies(result != nil, !h.ackQueued && h.ackAlarm == 0 && h.ackElicitingPacketsReceivedSinceLastAck == 0)
+//@   ensures [delay-from-largest-observed] implies(result != nil, result.DelayTime == max(0, now - h.largestObservedRcvdTime) && result.DelayTime >= 0)
+//@   modifies h.ackQueued, h.ackAlarm, h.ackElicitingPacketsReceivedSinceLastAck, h.receivedPacketTracker.hasNewAck, h.receivedPacketTracker.lastAck, heap(wire.AckFrame.AckRanges), heap(wire.AckFrame.DelayTime), heap(wire.AckFrame.ECT0), heap(wire.AckFrame.ECT1), heap(wire.AckFrame.ECNCE), elems(wire.AckRange)
+
 //@ func (h *receivedPacketTracker) GetAckFrame$1
 //@   props C07
 //@   requires ack != nil
